@@ -17,6 +17,9 @@ extern "C" void vf_thread_0() {
   uint64_t n = vf_nondet64(); vf_assume(n == VF_N);
 #else
   uint64_t n = vf_nondet64(); vf_assume(n <= VF_N);
+#ifdef VF_LO
+  vf_assume(n >= VF_LO);
+#endif
 #endif
   uint64_t ref[2] = {0, 0}; uint64_t cnt = 0;
   for (uint64_t i = 0; i < n && i < VF_N; ++i) {
@@ -36,5 +39,7 @@ extern "C" void vf_thread_0() {
   uint64_t seen[2] = {0, 0}; uint64_t it = 0;
   for (auto& v : *s) { vf_check(v < 64 && !((seen[0] >> v) & 1), 3); seen[0] |= 1ull << (v & 63); it++; if (it > VF_N + 2) break; }
   vf_check(it == cnt && seen[0] == ref[0], 3);
+#ifndef VF_NOFIND
   for (uint64_t k = 0; k < 64; ++k) { bool in = (ref[0] >> k) & 1; vf_check(s->contains(k) == in, 4); vf_check((s->find(k) != s->end()) == in, 4); }
+#endif
 }
